@@ -921,6 +921,86 @@ pub fn check_ext(c: &ExtCase, obs: &mut Obs) -> Check {
     dispatch!(c.ty.as_str(), check_ext_t(c, obs))
 }
 
+// ---------------------------------------------------------------- relative accuracy just after the start point
+
+/// A curve that starts at the origin is evaluated, just after t = 0, to the *relative* accuracy of f32: the value is
+/// 3 t p1 + O(t^2) and nothing of magnitude |p_i| is ever added to it (De Casteljau: t (t (..)) products only; power
+/// form: a0 = 0). A polygon-scaled tolerance cannot see an evaluator that returns the start point for all tiny t.
+#[derive(Clone, Debug, Serialize, Deserialize)]
+pub struct StartCase {
+    pub ty: String,
+    /// p1, p2, p3 (p0 is the origin)
+    pub p: [[X; 3]; 3],
+    pub t: X,
+}
+
+pub fn start_case() -> BoxedStrategy<StartCase> {
+    let ty = proptest::sample::select(TYPES.to_vec());
+    let mag = prop_oneof![2 => Just(1.0f32), 3 => log_uniform(-3.0, 3.0)];
+    let t = prop_oneof![
+        6 => log_uniform(-30.0, -3.0),
+        2 => log_uniform(-8.5, -6.0),
+        1 => prop_oneof![Just(f32::EPSILON), Just(f32::EPSILON / 2.0), Just(nudge(f32::EPSILON, -1)), Just(1e-7f32), Just(6e-8f32), Just(f32::MIN_POSITIVE), Just(1e-38f32)],
+    ];
+    (ty, proptest::array::uniform3(proptest::array::uniform3(coord())), mag, t)
+        .prop_map(|(ty, p, m, t)| {
+            let nc = ncomp(ty);
+            let p = p.map(|q| {
+                let mut q = q.map(|c| c * m);
+                for k in nc..3 {
+                    q[k] = 0.0;
+                }
+                xs(q)
+            });
+            StartCase { ty: ty.to_string(), p, t: X(t) }
+        })
+        .boxed()
+}
+
+fn check_start_t<T: Pt>(c: &StartCase, obs: &mut Obs) -> Check {
+    let nc = T::N;
+    let t = c.t.0;
+    ensure!(t > 0.0 && t < 1e-2, "bad-case", "t must be a small positive parameter");
+    let p: [[f32; 3]; 4] = [[0.0; 3], fs(c.p[0]), fs(c.p[1]), fs(c.p[2])];
+    let cb = CubicBezier(p.map(T::make));
+    let sp = BezierSpline::new(&p.map(T::make));
+    let (ev, fe, sv) = match catch(|| (cb.eval(t).comps(), cb.fast_eval(t).comps(), sp.eval(t).comps())) {
+        Ok(r) => r,
+        Err(e) => fail!("bezier-panic", "eval/fast_eval panicked at t={t:?}: {e}"),
+    };
+    let scale = p.iter().flatten().fold(0.0f64, |m, v| m.max(v.abs() as f64));
+    for k in 0..nc {
+        let pk = [0.0, p[1][k] as f64, p[2][k] as f64, p[3][k] as f64];
+        let want = bern(pk, t as f64);
+        // relative to the value itself, plus the second-order terms' own rounding (t^2 scale), plus the subnormal floor
+        let tol = START_REL * (want.abs() + (t as f64) * (t as f64) * scale) + 8.0 * f32::MIN_POSITIVE as f64;
+        for (name, got) in [("eval", ev[k]), ("fast_eval", fe[k]), ("spline eval", sv[k])] {
+            let e = (got as f64 - want).abs();
+            if want.abs() > 1e-30 {
+                obs.max("start: |value - bernstein| / (|bernstein| + t^2 scale)  (bound 4e-6; values above 1e-30)", e / (want.abs() + (t as f64) * (t as f64) * scale));
+            }
+            ensure!(
+                e <= tol,
+                "start-offset-lost",
+                "{name}({t:e}) component {k} = {got:e} on a curve starting at the origin; the Bernstein form gives {want:e} (relative error {:.3e})",
+                e / want.abs().max(1e-300)
+            );
+        }
+    }
+    obs.class(type_class(&c.ty));
+    obs.class(if t < f32::EPSILON { "start:t < f32::EPSILON" } else if t < 1e-5 { "start:t in [EPSILON, 1e-5)" } else { "start:t >= 1e-5" });
+    if scale > 0.0 {
+        obs.nontrivial(hash_of(&(&c.ty, &c.p, &c.t)));
+    }
+    Ok(())
+}
+
+pub fn check_start(c: &StartCase, obs: &mut Obs) -> Check {
+    dispatch!(c.ty.as_str(), check_start_t(c, obs))
+}
+
+const START_REL: f64 = 4e-6;
+
 // ---------------------------------------------------------------- approximate
 
 type Log = Vec<([f32; 3], bool)>;
@@ -1206,6 +1286,9 @@ pub fn run(cx: &mut Ctx) {
     cx.assume("ends-extreme: control coordinates up to f32::MAX and +-inf (no NaN): only the exact-end clauses are asserted there (eval/fast_eval/spline eval at t <= 0 and t >= 1, first and last vertex of approximate), since every interior value overflows");
     let n = cx.n(100_000, 4_000_000);
     cx.prop_check("ends-extreme", n, ext_case, |c, obs| check_ext(c, obs));
+    cx.assume("start-relative: for a curve whose first control point is the origin, eval / fast_eval / spline eval at 0 < t < 1e-2 agree with the Bernstein form to 4e-6 relative to the value (plus t^2 * scale and the subnormal floor)");
+    let n = cx.n(200_000, 6_000_000);
+    cx.prop_check("start-relative", n, start_case, |c, obs| check_start(c, obs));
 }
 
 pub fn replay(sub: &str, case: &Value) -> Check {
@@ -1215,6 +1298,7 @@ pub fn replay(sub: &str, case: &Value) -> Check {
     match sub {
         "bezier" => check_bez(&serde_json::from_value::<BezCase>(case.clone()).map_err(bad)?, &mut obs),
         "spline" | "joins" => check_spl(&serde_json::from_value::<SplCase>(case.clone()).map_err(bad)?, &mut obs),
+        "start-relative" => check_start(&serde_json::from_value::<StartCase>(case.clone()).map_err(bad)?, &mut obs),
         "ends-extreme" => check_ext(&serde_json::from_value::<ExtCase>(case.clone()).map_err(bad)?, &mut obs),
         "approximate" => check_apx(&serde_json::from_value::<ApxCase>(case.clone()).map_err(bad)?, &mut obs),
         _ => Err(Fail::new("bad-replay", format!("unknown subcheck {sub}"))),
